@@ -171,6 +171,11 @@ impl C11 {
         let (x, y) = (cx.rng.usize(1, 5), cx.rng.usize(1, 6));
         let mut st = UState::gen(&mut cx.rng, x, y);
         st.num_players = st.players.len() as u32;
+        if op != Out::Valid && cx.rng.chance(1, 3) {
+            // an announced count of zero does not make a failing players section any less of a failure
+            st.num_players = 0;
+            cx.count("unreal2-failing-players-section-with-zero-announced");
+        }
         let mut server = U2Server::new(st.info_datagram(), st.rules_datagrams(2), st.players_datagrams(2, true));
         let beh = |o: Out, valid: Vec<UBehaviour>| match o {
             Out::Valid => valid,
